@@ -26,10 +26,11 @@ type opCase struct {
 	xm, ym, um int
 	// previous contents of the receiver (must not matter): 0 fresh, 1 an inexact quotient (stale Below/Above accuracy),
 	// 2 an infinity, 3 a longer value rounded into it, 4 a negative zero
-	dirty    int
-	noSoil   bool  // C10's reference execution: a truly fresh receiver
-	spareCap int   // extra capacity (words) of the buffer of an operand that is also the receiver
-	opSeed   int64 // seed of the generator used while building operands (stale specials)
+	dirty     int
+	noSoil    bool   // C10's reference execution: a truly fresh receiver
+	spareCap  int    // extra capacity (words) of the buffer of an operand that is also the receiver
+	opSeed    int64  // seed of the generator used while building operands (stale specials)
+	lastCanon string // walker verdict on the receiver after the last execShape call ("" = canonical)
 }
 
 var (
@@ -875,6 +876,7 @@ func (k *opCase) execShape(part [4]int, prep func() *decimal.Decimal) (got hx.St
 			after[role] = &s
 		}
 	}
+	k.lastCanon = hx.Canonical(z)
 	return hx.Snapshot(z), pi, before, after
 }
 
